@@ -226,6 +226,11 @@ type Terminal struct {
 	startupDone bool
 	writeNo     int
 
+	// SixelVia: how a terminal with sixel support says so: "" = in the
+	// device attributes (attribute 4) and in the XTSMGRAPHICS reply, "da1" =
+	// attribute 4 only (the graphics query is not answered), "xtsmgraphics" =
+	// the graphics reply only
+	SixelVia string
 	// NoOSC10 / NoOSC11: the terminal answers only one of the two default
 	// colour queries although Caps.OSC1011 is set
 	NoOSC10, NoOSC11 bool
@@ -1141,8 +1146,8 @@ func (t *Terminal) csiDispatch(final byte) {
 		moved = false
 	case "||c":
 		t.probe("", true)
-		if t.Caps.Sixel {
-			t.reply("\x1b[?62;4c")
+		if t.Caps.Sixel && t.SixelVia != "xtsmgraphics" {
+			t.reply("\x1b[?62;4;22c")
 		} else {
 			t.reply("\x1b[?62c")
 		}
@@ -1240,7 +1245,7 @@ func (t *Terminal) csiDispatch(final byte) {
 	case "?||S":
 		if pv0(ps, 0) == 2 && pv0(ps, 1) == 1 {
 			t.probe("sixel", t.Caps.Sixel)
-			if t.Caps.Sixel {
+			if t.Caps.Sixel && t.SixelVia != "da1" {
 				t.reply(fmt.Sprintf("\x1b[?2;0;%d;%dS", t.Cols*t.CellW, t.Rows*t.CellH))
 			}
 		} else {
